@@ -385,9 +385,10 @@ End DictHead.
     a call with absent arguments *)
 Definition dict_deserialize (P : dproto) (soft : bool) (A : app) (fuel : nat) (c : nat) (k v : jv) : res unit :=
   let name := match nth_error (a_classes A) c with Some cl => c_name cl | None => [] end in
+  (* doc.get(class_name): MessagePackDocument looks the type name up as bytes and, when that key
+     is not in the document, as str *)
   let hit := match P, k with
              | PMsgpack, JBytes b _ => text_eqb b name
-             | PMsgpack, _ => false
              | _, JStr s => text_eqb s name
              | _, _ => false
              end in
